@@ -20,4 +20,5 @@ def run(ck):
     gradient.r15_reflected_angle_stays_half_open(ck, P)
     gradient.r16_packed_channels_are_clamped(ck, P)
     gradient.r17_walker_position_kept_wide(ck, P)
+    gradient.r18_reflection_mirrors_the_old_bounds(ck, P)
     sampling.r16_skip_only_on_zero_mask_word(ck, P, 'C13-R14')
